@@ -3750,3 +3750,60 @@ func c06R9(c *Ctx, r *Report) {
 	r.Check(recvTest, rule, cs.Name(), "a &'-receiver method is not called on an immutable reference value", c.pos(cs.Decl.Pos()),
 		"`get(&p).bump()` with `fn get(p: &Point) -> &Point` and `fn (p: &'Point) bump()` is accepted and changes p through the immutable reference")
 }
+
+// ---- C06.R10: a copy that shares storage is recognised through structs, fixed arrays and optionals --------------
+
+func init() {
+	lateInits = append(lateInits, func() {
+		props["C06"].Quick = append(props["C06"].Quick, c06R10)
+		props["C06"].Explanation += " (R10) the predicate with which reportMutableAliasOfImmutable decides that a copy shares storage with its source is recursive: it has a case for maps, one for arrays (dynamic, or by their element), and one for structs that visits every field."
+	})
+}
+
+func c06R10(c *Ctx, r *Report) {
+	const rule = "C06.R10"
+	r.Describe(rule, "typechecker.reportMutableAliasOfImmutable: the sharing test is a call to a function whose type switch has cases *types.MapType, *types.ArrayType and *types.StructType, and whose struct case calls the function itself inside a range over .Fields")
+	fn := c.LookupFn(pkgTC, "reportMutableAliasOfImmutable")
+	if !r.Anchor(rule, fn != nil, "typechecker.reportMutableAliasOfImmutable") {
+		return
+	}
+	info := fn.Info()
+	ok, where := false, c.pos(fn.Decl.Pos())
+	for _, cl := range callsIn(fn.Decl.Body, false) {
+		f := callee(info, cl)
+		hf := c.FnOf(f)
+		if f == nil || hf == nil || hf.Decl == nil || hf.Decl.Body == nil || f.Pkg() != fn.Obj.Pkg() {
+			continue
+		}
+		cases := map[string]*ast.CaseClause{}
+		ast.Inspect(hf.Decl.Body, func(x ast.Node) bool {
+			if cc, isCC := x.(*ast.CaseClause); isCC {
+				for _, t := range caseTypes(hf.Info(), cc) {
+					if nt := namedOf(t); nt != nil {
+						cases[nt.Obj().Name()] = cc
+					}
+				}
+			}
+			return true
+		})
+		if cases["MapType"] == nil || cases["ArrayType"] == nil || cases["StructType"] == nil {
+			continue
+		}
+		recursive := false
+		for _, st := range cases["StructType"].Body {
+			ast.Inspect(st, func(x ast.Node) bool {
+				rs, isRange := x.(*ast.RangeStmt)
+				if isRange && strings.HasSuffix(exprStr(rs.X), ".Fields") && nodeCalls(hf.Info(), rs.Body, f) != nil {
+					recursive = true
+				}
+				return true
+			})
+		}
+		if recursive {
+			ok = true
+			where = c.pos(hf.Decl.Pos())
+		}
+	}
+	r.Check(ok, rule, fn.Name(), "storage shared through a field or an element is recognised", where,
+		"only a value that is itself a dynamic array or a map counts as sharing storage when copied: `const s: S = {.Items = [1, 2, 3]}; let t := s; t.Items[0] = 9;` is accepted and changes the constant's array")
+}
